@@ -125,6 +125,11 @@ func GenLayoutCase(seed int64, idx int) GCase {
 				doc = "\t// :skip B\n"
 			case 2:
 				doc = fmt.Sprintf("\t// %s converts S to D.\n\t//\n\t// More text.\n", mname)
+				if mi%2 == 0 {
+					// lines in directive form that are no notations: they belong to the function's doc comment like any other line
+					doc += "\t//\n\t//nolint:dupl // twin of the hand-written one\n\t//go:noinline\n"
+					feats["directive-form-line-in-method-doc"] = true
+				}
 			case 3:
 				doc = fmt.Sprintf("\t/* %s block doc */\n", mname)
 				feats["block-doc-on-method"] = true
